@@ -11,6 +11,8 @@ type KeyCase struct {
 	D      *Desc  `json:"desc"`
 	Steps  []Step `json:"steps"`
 	NoLogs bool   `json:"nologs"`
+	// BusySinkMs: the reader of the MIDI output is busy for this long when the device disconnects (see EngineOpts)
+	BusySinkMs int `json:"busy_sink_ms,omitempty"`
 }
 
 type walkStep struct {
@@ -56,7 +58,7 @@ func doWalk(prop string, c *KeyCase) (*walk, *Violation) {
 		return nil, v
 	}
 	w := &walk{Case: c, Cfg: cfg, TOML: text, Model: NewModel(c.D)}
-	w.Run = RunDevice(cfg, c.D, c.Steps, EngineOpts{NoLogs: c.NoLogs})
+	w.Run = RunDevice(cfg, c.D, c.Steps, EngineOpts{NoLogs: c.NoLogs, BusySinkMs: c.BusySinkMs})
 	if w.Run.Panic != "" {
 		return w, violation(prop, "panic", "", "device code panicked: %s", w.Run.Panic)
 	}
@@ -177,6 +179,7 @@ func checkC01(c KeyCase) (bool, *Violation) {
 	classifyIf(stateChangeWhileHeld, "state change while a note key is held")
 	classifyIf(overlap, "overlapping note keys")
 	classifyIf(heldAtCut, "disconnect with a key or axis held")
+	classifyIf(heldAtCut && c.BusySinkMs > 0, "disconnect with notes held while the MIDI output is not being read")
 	classify("mode " + c.D.Mode)
 	return (stateChangeWhileHeld && overlap) || heldAtCut, nil
 }
